@@ -205,6 +205,14 @@ def check(repo: Repo, rep: Report) -> None:
             calls = [y for y in hs if isinstance(y.node, ast.Call) and isinstance(y.node.func, ast.Name) and y.node.func.id == side and not y.ctx.branch]
             down = [y for y in hs if isinstance(y.node, ast.Call) and isinstance(y.node.func, ast.Attribute) and y.node.func.attr in ("on_next", "on_error", "on_completed")
                     and u(y.node.func.value) == a.params[0]]
+            # ... and forwards only if the winner is ITS side: the constant in the gate is the one its side's choice helper assigns
+            side_consts = {u(n_.value) for n_ in (ch.direct_nodes() if ch is not None else ()) if isinstance(n_, ast.Assign) and isinstance(n_.value, ast.Name)}
+            for d in down:
+                gate = [e for e, p_ in d.ctx.guards if p_ and isinstance(e, ast.Compare) and len(e.ops) == 1 and isinstance(e.ops[0], ast.Eq)]
+                okc = any(isinstance(e.comparators[0], ast.Name) and u(e.comparators[0]) in side_consts or isinstance(e.left, ast.Name) and u(e.left) in side_consts for e in gate)
+                rep.ob("G1-gating", h, f"amb {h.name}: `{short(d.node, 30)}` gated by its own side's constant {sorted(side_consts)}", okc,
+                       f"amb's {h.name} forwards when the OTHER side won (gate {[short(e, 40) for e in gate]}): this side's notifications are dropped when it "
+                       f"wins and forwarded when it lost")
             rep.ob("G1-gating", h, f"amb {h.name}: {side}() before the winner test", bool(calls) and all(calls[0].index < d.index for d in down),
                    f"amb's {h.name} does not enter the race ({side}() is not called first): when this is the first notification of all, no winner "
                    f"is chosen and the notification is dropped — amb does not mirror the first source to notify")
